@@ -10,6 +10,12 @@ text nodes of the parsed tree (`tn`, `tnFlat`, `directSrc`, `tableCellNodes`, `s
 `Model/HtmlSpec.lean`, all written from the DOM alone).  White space is not fixed by the
 property, so texts are compared through `squeeze` (all white space removed); the statements
 about `pieces` are exact.  All theorems are for every tree, every predicate, every position.
+
+Depth limit (fix a65974f): these are statements about the mechanism — `getTextContentRecursive`,
+`traverseNodeFiltered`, `extractBodyWithMode` on a tree — whose code did not change; they stay
+verbatim and hold for every tree.  A PUBLIC call only ever runs the mechanism on a tree
+`OpenReader` admitted (height ≤ `maxTreeDepth` = 10000); the statements about the public calls,
+with that hypothesis, are in Props/C19Api.lean (`text_is_source_text`, `open_refuses_beyond`).
 -/
 namespace Tabula.C19Text
 open Tabula.Html
@@ -109,8 +115,10 @@ theorem content_text_complete (p : Pos → Dom → Bool) (body : Dom) :
   rw [e]
   exact atoms_src p (hasWrapper body) body .root ⟨false, 0⟩
 
-/-- … in particular for the public reader: whatever raw mode value is asked for, from the
-document node the parser returned -/
+/-- … in particular for the element list of a reader (`extractBodyWithMode(doc, mode)`): whatever raw
+mode value is asked for, from the document node the parser returned (a reader exists for trees of
+height ≤ `maxTreeDepth` only, see `Tabula.C19Api.open_refuses_beyond`; the statement itself is about
+the walk and holds for every tree) -/
 theorem content_text_complete_api (m : Int) (doc : Dom) :
     squeeze (elementsText (extractI m doc)) = squeeze (srcOf m doc) := by
   unfold extractI srcOf
@@ -212,7 +220,8 @@ theorem content_complete_unless_mixed_paragraph (p : Pos → Dom → Bool) (body
 example : noMixed (.elem T.body [] [.elem T.p [] [.text [120]], .elem T.ul [] [.elem T.li [] [.text [121]]]]) = true := by
   decide
 
-/-- … for the public reader, any raw mode value, from the document node -/
+/-- … for the element list of a reader, any raw mode value, from the document node (as above: a
+statement about the walk, for every tree; a reader exists within the depth limit only) -/
 theorem content_complete_unless_mixed_paragraph_api (m : Int) (doc : Dom) (h : noMixed (bodyOf doc) = true) :
     squeeze (elementsText (extractI m doc)) = squeeze (wantOf m doc) := by
   unfold extractI wantOf
